@@ -2,6 +2,7 @@ package doublesign
 
 import (
 	"errors"
+	"math"
 	"time"
 )
 
@@ -41,6 +42,19 @@ func (m *maxWaitError) apply(wait time.Duration, waitErr error) {
 	}
 }
 
+// subDuration returns a - b, capped at the largest (smallest) representable duration.
+// A plain a - b wraps around when b is a saturated s.Since() of a timestamp far in the future.
+func subDuration(a, b time.Duration) time.Duration {
+	d := a - b
+	if (d < a) != (b > 0) {
+		if b > 0 {
+			return math.MinInt64
+		}
+		return math.MaxInt64
+	}
+	return d
+}
+
 // SyncedToEmit should be called before emitting any events
 // It returns nil if node is allowed to emit events
 // Otherwise, node returns a minimum duration of how long node should wait before emitting
@@ -53,19 +67,19 @@ func SyncedToEmit(s SyncStatus, threshold time.Duration) (time.Duration, error) 
 	}
 	var max maxWaitError
 	if s.Since(s.ExternalSelfEventDetected) < threshold {
-		max.apply(threshold-s.Since(s.ExternalSelfEventDetected), ErrSelfEventsOngoing)
+		max.apply(subDuration(threshold, s.Since(s.ExternalSelfEventDetected)), ErrSelfEventsOngoing)
 	}
 	if s.Since(s.ExternalSelfEventCreated) < threshold {
-		max.apply(threshold-s.Since(s.ExternalSelfEventCreated), ErrSelfEventsOngoing)
+		max.apply(subDuration(threshold, s.Since(s.ExternalSelfEventCreated)), ErrSelfEventsOngoing)
 	}
 	if s.Since(s.BecameValidator) < threshold {
-		max.apply(threshold-s.Since(s.BecameValidator), ErrJustBecameValidator)
+		max.apply(subDuration(threshold, s.Since(s.BecameValidator)), ErrJustBecameValidator)
 	}
 	if s.Since(s.LastConnected) < threshold {
-		max.apply(threshold-s.Since(s.LastConnected), ErrJustConnected)
+		max.apply(subDuration(threshold, s.Since(s.LastConnected)), ErrJustConnected)
 	}
 	if s.Since(s.P2PSynced) < threshold {
-		max.apply(threshold-s.Since(s.P2PSynced), ErrJustP2PSynced)
+		max.apply(subDuration(threshold, s.Since(s.P2PSynced)), ErrJustP2PSynced)
 	}
 
 	return max.wait, max.waitErr
